@@ -679,6 +679,30 @@ def rule_gates(chk: Check, view: AsyncView, rid: str):
                 chk.loc(view.fi(key)))
 
 
+def rule_inner_gates(chk: Check, view: AsyncView, rid: str):
+    """A task function that tests the state once more at its top (push_ts_input / push_input of a connection) goes on in exactly the states
+    in which the connection's _submit accepts tasks: a narrower test drops what _submit has just let through (a producer started before the
+    consumer pushes its first messages into a connection that is still READY)."""
+    n = 0
+    for key, r in view.results.items():
+        if key.count(".") != 1 or view.cls_of.get(key) != "conn":
+            continue
+        fq = view.fi(key).qualname
+        rets = [e for e in r.events if e.kind == "return" and e.func == fq and e.term == T.NONE and e.guard != T.TRUE and mentions(e.guard, "self._state")
+                and all(a == STATE or mentions(a, "self._state") for a in flow.bool_atoms(e.guard, []))]
+        if not rets:
+            continue
+        first = min(rets, key=lambda e: e.idx)
+        if any(e.kind in ("call", "store_attr") and e.idx < first.idx and e.func == fq and not e.name.endswith(".log") for e in r.events):
+            continue  # (not a gate at the top of the function)
+        n += 1
+        goes_on = state_set(T.mk_not(first.guard), {})
+        ref = REF_GATES.get("conn._submit")
+        chk.add(rid, f"inner-gate:{key}", goes_on == ref, f"{key} goes on in states {sorted(goes_on) if goes_on is not None else '?'}, but conn._submit accepts tasks in {sorted(ref)}: "
+                "a task accepted in a state the function then refuses is dropped silently", chk.loc(view.fi(key), first.node))
+    chk.floor(rid, "task functions with a state test of their own", n, 2)
+
+
 def rule_typestate(chk: Check, view: AsyncView, rid: str):
     chk.rule(rid, "typestate (A10): every assignment to _state happens under a guard that restricts the predecessor state to the "
                   "reference automaton; _submit gates accept exactly the running states (or stopping=True); the STOPPING flip and the "
@@ -712,6 +736,7 @@ def rule_typestate(chk: Check, view: AsyncView, rid: str):
             chk.violation(rid, f"transition-missing:{key}", f"{key} no longer sets _state (reference transition -> {REF_AUTOMATON[key][1]})",
                           chk.loc(view.fi(key)))
     rule_gates(chk, view, rid)
+    rule_inner_gates(chk, view, rid)
     # the lifecycle tasks end in their target state on every path (a stopping task that can return early leaves the wrapper in
     # STOPPING for ever: no new episode can be started)
     for key in ("node._stop._stopping", "conn.stop._stopping", "node._startup._starting"):
